@@ -42,6 +42,17 @@ static void run_case(vf::Ctx& ctx, const Fac& fac, bool hostile)
         if (es->eigenvalues().size() != 0 || es->eigenvectors().cols() != 0 || es->eigenvectors(3).cols() != 0)
             ctx.violation(key("accessors-not-empty-before-compute"), info().kv("when", when).str());
     };
+    // at EVERY point of a history (also between a new init() and the next compute(), after a compute() or an init() that threw, after reads) the accessors describe
+    // one and the same set of pairs: sizes agree, eigenvectors(m) has min(m, count) columns, count <= nev
+    auto check_consistent = [&](const char* when) {
+        ctx.count("anytime_consistency_checks");
+        const long k = (long) es->eigenvalues().size(), c = (long) es->eigenvectors().cols();
+        if (k != c || k > d.nev) { ctx.violation(key("accessors-disagree-between-calls"), info().kv("when", when).kv("eigenvalues", k).kv("eigenvector_cols", c).kv("info", info_name(es->info())).str()); return; }
+        for (long m = 0; m <= d.nev + 2; m++)
+            if ((long) es->eigenvectors(m).cols() != std::min(m, k))
+            { ctx.violation(key("accessors-disagree-between-calls"), info().kv("when", when).kv("nvec", m).kv("cols", (long) es->eigenvectors(m).cols()).kv("eigenvalues", k).str()); return; }
+        if (k > 0) ctx.count("anytime_consistency_checks_with_pairs");
+    };
     check_not_computed("after construction");
     bool inited = false, computed = false;
     const std::vector<T> tols = {1e-12, 1e-10, 1e-8, 1e-6, 1e-3};
@@ -66,9 +77,10 @@ static void run_case(vf::Ctx& ctx, const Fac& fac, bool hostile)
                     es->init(v.data());
                 }
             }
-            catch (const std::exception&) { word += "!"; inited = false; continue; }   // (an operator failing inside init(): counters are judged again after the next complete init())
+            catch (const std::exception&) { word += "!"; inited = false; check_consistent("after an init() that threw"); continue; }   // (an operator failing inside init(): counters are judged again after the next complete init())
             inited = true;
             if (!computed) check_not_computed("after init");
+            else { check_consistent("after init() following a compute()"); ctx.count("init_after_compute_checks"); }
             // init() itself applies the operator: the counter must agree right away
             if ((long) es->num_operations() != ctl.iteration_count())
                 ctx.violation(key("num_operations-after-init"), info().kv("reported", (long) es->num_operations()).kv("observed", ctl.iteration_count()).str());
@@ -76,6 +88,7 @@ static void run_case(vf::Ctx& ctx, const Fac& fac, bool hostile)
         else if (op == 'r')
         {
             (void) es->eigenvalues(); (void) es->eigenvectors(); (void) es->eigenvectors(1); (void) es->info(); (void) es->num_iterations();
+            check_consistent("accessor reads");
         }
         else
         {
@@ -85,7 +98,7 @@ static void run_case(vf::Ctx& ctx, const Fac& fac, bool hostile)
             long ret = -1;
             try { ret = (long) es->compute(la.sel, la.maxit, la.tol, la.sort); }
             catch (const vw::WorkBoundExceeded&) { ctx.inconclusive("work guard hit (see C13)"); break; }
-            catch (const std::exception&) { ctl.limit = -1; word += "!"; inited = false; ctx.count("compute_exceptions"); continue; }
+            catch (const std::exception&) { ctl.limit = -1; word += "!"; inited = false; ctx.count("compute_exceptions"); check_consistent("after a compute() that threw"); continue; }
             ctl.limit = -1;
             computed = true;
             ctx.count("computes");
